@@ -1423,8 +1423,14 @@ class Tracer:
         recv = None
         if isinstance(callee_ast, ast.Attribute):
             recv = Val(callee_ast.value, tags=fv.tags if fv is not None else frozenset())
-        node = ast.Call(func=callee_ast, args=[a.ast for a in args],
-                        keywords=[ast.keyword(arg=(k if not k.startswith('**') else None), value=v.ast) for k, v in kw.items()])
+        # the value of the call is written in positional form (f(a, y=2) and f(a, 2) are the same call, and read the same)
+        pa_, pk_ = self.repo.positional_form(e, fi, list(args), dict(kw)) if kw else (args, kw)
+        node = ast.Call(func=callee_ast, args=[a.ast for a in pa_],
+                        keywords=[ast.keyword(arg=(k if not k.startswith('**') else None), value=v.ast) for k, v in pk_.items()])
+        # the recorded event offers both views of the arguments of a call into the package: by position (keyword arguments that name
+        # leading parameters moved to their places) and by name (positional arguments also under their parameter names) -
+        # f(a, y=2) and f(a, 2) are the same call
+        args, kw = self.repo.positional_form(e, fi, list(args), dict(kw), union=True)
         tags = frozenset().union(*([a.tags for a in args] + [v.tags for v in kw.values()] + ([fv.tags] if fv is not None else [])))
         res = Val(node, tags=tags | {'call:%s' % (attr or callee)})
         ev = Event('call', callee=callee, attr=attr, recv=recv, args=list(args), kw=dict(kw), node=e, fn=fi.qualname,
